@@ -97,6 +97,7 @@ fn run(ctx: &RunCtx) -> Report {
     }
     // partitions: a server is cut off from everybody for a while, then the network heals
     let mut partition_windows: Vec<(u64, u64)> = vec![];
+    let mut suspend_windows: Vec<(HostId, u64, u64)> = vec![];
     let n_parts = if rng.chance(1, 3) { rng.usize(1, 2) } else { 0 };
     for _ in 0..n_parts {
         let victim = net.servers[rng.usize(0, net.servers.len() - 1)];
@@ -127,6 +128,30 @@ fn run(ctx: &RunCtx) -> Report {
         report.probe("partitions_planned", 1);
         partition_windows.push((at, heal));
     }
+    // a node is suspended (not scheduled at all) for a while and then resumes: to the node this is a
+    // clock jump; everything it knows is stale afterwards
+    if rng.chance(1, 4) {
+        let victim = net.servers[rng.usize(0, net.servers.len() - 1)];
+        if victim != net.first && !crash_times.contains_key(&victim) {
+            let at = t0 + rng.range(60, (hours * 3600).saturating_sub(2500).max(61)) * SEC;
+            let d = rng.range(60, 2400) * SEC;
+            plan_lines.push(format!("suspend {} at t={}s for {}s", sim.node_addr(victim), at / SEC, d / SEC));
+            let (i1, i2) = (isolated.clone(), isolated.clone());
+            sim.at(at, move |sim| {
+                if sim.alive(victim) {
+                    sim.stall(victim, d);
+                    i1.borrow_mut().insert(victim);
+                }
+            });
+            // it needs a moment after resuming to work through its backlog and re-bootstrap
+            sim.at(at + d + 20 * SEC, move |_sim| {
+                i2.borrow_mut().remove(&victim);
+            });
+            partition_windows.push((at, at + d));
+            suspend_windows.push((victim, at, at + d));
+            report.probe("suspensions_planned", 1);
+        }
+    }
     let n_lookups = rng.usize(0, 30);
     for _ in 0..n_lookups {
         let at = t0 + rng.range(0, hours * 3600) * SEC;
@@ -149,7 +174,7 @@ fn run(ctx: &RunCtx) -> Report {
     let mut last_scan = 0usize; // trace position
     // (X, P addr) -> last time P answered X's lookup / ping request
     let mut last_answer: BTreeMap<(HostId, SocketAddrV4), (u64, Id)> = BTreeMap::new();
-    let mut pending: BTreeMap<(HostId, SocketAddrV4, u32), ()> = BTreeMap::new();
+    let mut pending: BTreeMap<(HostId, SocketAddrV4, u32), u64> = BTreeMap::new();
     let by_addr: BTreeMap<SocketAddrV4, HostId> = all.iter().map(|h| (sim.node_addr(*h), *h)).collect();
     let mut born: BTreeMap<HostId, u64> = all.iter().map(|h| (*h, 0u64)).collect();
     let mut incarnations: BTreeMap<HostId, u32> = all.iter().map(|h| (*h, 0u32)).collect();
@@ -197,13 +222,17 @@ fn run(ctx: &RunCtx) -> Report {
                 let Some(k) = Krpc::parse(&d.bytes) else { continue };
                 if let (Some(x), Some(q)) = (d.from_host, k.query_name()) {
                     if matches!(q, "find_node" | "get" | "get_peers" | "get_signed_peers" | "ping") {
-                        pending.insert((x, d.dst, k.tid_u32().unwrap_or(0)), ());
+                        pending.insert((x, d.dst, k.tid_u32().unwrap_or(0)), d.t_send);
                     }
                 }
                 if let (Some(x), true, Some(at)) = (d.to_host, k.is_response(), d.t_deliver) {
-                    if d.fate == Fate::Delivered && pending.remove(&(x, d.src, k.tid_u32().unwrap_or(0))).is_some() && !k.ro {
+                    if d.fate != Fate::Delivered || k.ro {
+                        continue;
+                    }
+                    if let Some(req_sent) = pending.remove(&(x, d.src, k.tid_u32().unwrap_or(0))) {
                         if let Some(id) = k.id() {
-                            if at - d.t_send < 400 * MS && at <= t {
+                            // round trip measured from the request
+                            if at.saturating_sub(req_sent) < 400 * MS && at <= t {
                                 last_answer.insert((x, d.src), (at, id));
                             }
                         }
@@ -236,6 +265,12 @@ fn run(ctx: &RunCtx) -> Report {
         // checks
         for x in &all {
             if !sim.alive(*x) {
+                continue;
+            }
+            // a suspended node does nothing and observes nothing; what it was told before the
+            // suspension is as good as forgotten when it resumes (its clock has jumped)
+            if let Some((_, _, end)) = suspend_windows.iter().find(|(v, a, e)| v == x && t >= *a && t <= *e + 30 * SEC) {
+                born.insert(*x, *end + 30 * SEC);
                 continue;
             }
             let Some(s) = sim.snapshot(*x) else { continue };
@@ -321,6 +356,10 @@ fn run(ctx: &RunCtx) -> Report {
             // (b) dead incarnations disappear within 15 + 5 + 1 minutes
             for (p, ids) in &old_ids {
                 for (oid, since) in ids {
+                    // a node that was suspended works through queued datagrams when it resumes and may
+                    // (re)learn a peer that died meanwhile: its clock for that peer starts then
+                    let resumed = suspend_windows.iter().filter(|(v, _, _)| v == x).map(|(_, _, e)| *e + 30 * SEC).max().unwrap_or(0);
+                    let since = &(*since).max(resumed.min(t));
                     let limit = ((21 * 60 * SEC) as f64 * skew) as u64;
                     if t > since + limit {
                         let paddr = sim.node_addr(*p);
